@@ -145,3 +145,38 @@ V('C20', 'reader-drops-tweak', BLOOM, 'deserialized.nTweak = nTweak', 'deseriali
 V('C20', 'modulus-bytes-not-bits', BLOOM, '% (len(self.vData) * 8)', '% (len(self.vData))', 'C20.S1', scope='CBloomFilter.bloom_hash')
 V('C20', 'insert-full-shortcut-widened', BLOOM, "        if len(self.vData) == 1 and self.vData[0] == 0xff:\n            return\n", "        if len(self.vData) >= 1 and self.vData[0] == 0xff:\n            return\n", 'C20.N1', scope='CBloomFilter.insert')
 V('C20', 'bit-mask-table', BLOOM, '[0x01, 0x02, 0x04, 0x08, 0x10, 0x20, 0x40, 0x80]', '[0x01, 0x02, 0x04, 0x08, 0x10, 0x20, 0x40, 0x40]', 'C20.N1')
+
+# ------------------------------------------------------------------------------------------------ C18
+V('C18', 'revert-F6-length-signed', MSG, 'msglen = struct.unpack(b"<I", recvbuf[4+12:4+12+4])[0]', 'msglen = struct.unpack(b"<i", recvbuf[4+12:4+12+4])[0]', 'C18.H1')
+V('C18', 'checksum-not-compared', MSG, "        if checksum != h[:4]:\n            raise ValueError(\"got bad checksum %s\" % repr(recvbuf))\n            recvbuf = recvbuf[4+12+4+4+msglen:]\n", "", 'C18.D1', scope='MsgSerializable.stream_deserialize')
+V('C18', 'ping-reader-32bit', MSG, 'c.nonce = struct.unpack(b"<Q", ser_read(f, 8))[0]', 'c.nonce = struct.unpack(b"<I", ser_read(f, 4))[0]', 'C18.L', scope='msg_ping.msg_deser')
+V('C18', 'pong-unregistered', MSG, '               msg_pong, msg_reject, msg_mempool]', '               msg_reject, msg_mempool]', 'C18.R1')
+V('C18', 'testnet-magic', INIT, "MESSAGE_START = b'\\x0b\\x11\\x09\\x07'", "MESSAGE_START = b'\\x0b\\x11\\x09\\x08'", 'C18.C1')
+V('C18', 'command-padded-to-11', MSG, 'res += b"\\x00" * (12 - len(self.command))', 'res += b"\\x00" * (11 - len(self.command))', 'C18.H1', scope='MsgSerializable.to_bytes')
+V('C18', 'magic-default-argument', MSG, "    def stream_deserialize(cls, f, protover=PROTO_VERSION):\n        recvbuf = ser_read(f, 4 + 12 + 4 + 4)", "    def stream_deserialize(cls, f, protover=PROTO_VERSION, magic=bitcoin.params.MESSAGE_START):\n        recvbuf = ser_read(f, 4 + 12 + 4 + 4)", 'C18.P1')
+V('C18', 'raw-read-of-payload', MSG, 'recvbuf += ser_read(f, msglen)', 'recvbuf += f.read(msglen)', 'C18.D1', scope='MsgSerializable.stream_deserialize')
+V('C18', 'inv-type-16bit', NET, 'f.write(struct.pack(b"<i", self.type))', 'f.write(struct.pack(b"<h", self.type))', 'C18.L', scope='CInv.stream_serialize')
+V('C18', 'port-little-endian', NET, 'f.write(struct.pack(b">H", self.port))', 'f.write(struct.pack(b"<H", self.port))', 'C18.L', scope='CAddress.stream_serialize')
+V('C18', 'version-services-order', MSG, "        f.write(struct.pack(b\"<Q\", self.nServices))\n        f.write(struct.pack(b\"<q\", self.nTime))", "        f.write(struct.pack(b\"<q\", self.nTime))\n        f.write(struct.pack(b\"<Q\", self.nServices))", 'C18.L', scope='msg_version.msg_ser')
+V('C18', 'getheaders-no-hashstop', MSG, "        c.locator = CBlockLocator.stream_deserialize(f)\n        c.hashstop = ser_read(f, 32)", "        c.locator = CBlockLocator.stream_deserialize(f)", 'C18.L', scope='msg_getheaders.msg_deser')
+V('C18', 'checksum-single-sha', MSG, "        th = hashlib.sha256(body).digest()\n        h = hashlib.sha256(th).digest()", "        h = hashlib.sha256(body).digest()", 'C18.H1', scope='MsgSerializable.to_bytes')
+V('C18', 'payload-slice-off-by-one', MSG, 'msg = recvbuf[4+12+4+4:4+12+4+4+msglen]', 'msg = recvbuf[4+12+4+3:4+12+4+4+msglen]', 'C18.H1', scope='MsgSerializable.stream_deserialize')
+V('C18', 'wrong-magic-returns-none', MSG, "            raise ValueError(\"Invalid message start '%s', expected '%s'\" %\n                             (b2x(recvbuf[:4]), b2x(bitcoin.params.MESSAGE_START)))", "            return None", 'C18.D1', scope='MsgSerializable.stream_deserialize')
+V('C18', 'ipv4-prefix-10-bytes', NET, 'if bytes(packedIP[0:12]) == IPV4_COMPAT:', 'if bytes(packedIP[0:10]) == IPV4_COMPAT[0:10]:', 'C18.A1')
+V('C18', 'addr-time-16bit', NET, 'c.nTime = struct.unpack(b"<I", ser_read(f, 4))[0]', 'c.nTime = struct.unpack(b"<H", ser_read(f, 2))[0]', 'C18.L', scope='CAddress.stream_deserialize')
+V('C18', 'reject-code-missing-in-writer', MSG, '        f.write(struct.pack(b"<c", self.ccode))\n', '', 'C18.L', scope='msg_reject.msg_ser')
+V('C18', 'command-two-classes', MSG, 'command = b"notfound"', 'command = b"getdata"', 'C18.R1')
+
+# ------------------------------------------------------------------------------------------------ C14
+V('C14', 'header-base-28', SIGMSG, 'meta = 27 + i', 'meta = 28 + i', 'C14.L2', scope='SignMessage')
+V('C14', 'magic-constant', SIGMSG, 'magic="Bitcoin Signed Message:\\n"', 'magic="Bitcoin Signed Message\\n"', 'C14.L1')
+V('C14', 'message-before-magic', SIGMSG, "        bitcoin.core.serialize.BytesSerializer.stream_serialize(self.magic, f)\n        bitcoin.core.serialize.BytesSerializer.stream_serialize(self.message, f)", "        bitcoin.core.serialize.BytesSerializer.stream_serialize(self.message, f)\n        bitcoin.core.serialize.BytesSerializer.stream_serialize(self.magic, f)", 'C14.L1', scope='BitcoinMessage.stream_serialize')
+V('C14', 'message-stripped', SIGMSG, 'message.encode("utf-8")', 'message.strip().encode("utf-8")', 'C14.L1')
+V('C14', 'compressed-flag-plus-8', SIGMSG, 'meta += 4', 'meta += 8', 'C14.L2', scope='SignMessage')
+V('C14', 'recid-mask-1', KEY, 'recid = (sig[0] - 27) & 3', 'recid = (sig[0] - 27) & 1', 'C14.L2', scope='CPubKey.recover_compact')
+V('C14', 'r-s-slices-swapped', KEY, "        sigR = sig[1:33]\n        sigS = sig[33:65]", "        sigS = sig[1:33]\n        sigR = sig[33:65]", 'C14.L2', scope='CPubKey.recover_compact')
+V('C14', 'verify-compares-objects', SIGMSG, 'return str(P2PKHBitcoinAddress.from_pubkey(pubkey)) == str(address)', 'return P2PKHBitcoinAddress.from_pubkey(pubkey) == address', 'C14.V1')
+V('C14', 'recid-search-uncompressed-compare', KEY, 'if cec_key.get_pubkey() == pubkey.get_pubkey():', 'if cec_key.get_pubkey() == self.get_pubkey():', 'C14.S1', scope='CECKey.sign_compact')
+V('C14', 'r-not-padded', KEY, "r_val = ((b'\\x00' * 32) + r_val)[-32:]", "r_val = r_val[-32:]", 'C14.S1', scope='CECKey.sign_compact')
+V('C14', 'verify-hashes-text-not-digest', SIGMSG, 'hash = message.GetHash()', 'hash = message.serialize()[:32]', 'C14.V1', scope='VerifyMessage')
+V('C14', 'length-check-64', KEY, 'if len(sig) != 65:', 'if len(sig) < 64:', 'C14.L2', scope='CPubKey.recover_compact')
